@@ -674,7 +674,13 @@ where
                     }
                     ChunkCommand::Resume => {
                         //info!("[verify-test] run_vms_child: resume");
-                        let res = scheduler.run(RunMode::Pause(pause_cloned, max_cycles));
+                        // cycles consumed before a pause count against max_cycles as well
+                        let res = match max_cycles.checked_sub(scheduler.consumed_cycles()) {
+                            Some(remain_cycles) => {
+                                scheduler.run(RunMode::Pause(pause_cloned, remain_cycles))
+                            }
+                            None => Err(VMInternalError::CyclesExceeded),
+                        };
                         match res {
                             Ok(_) => {
                                 let _ = finish_tx.send(res);
